@@ -429,7 +429,7 @@ def run(tape, scenario):
                 ec.mbx_lock_file = LockFile("/run/ebpf/sim0", *ec.terminal_addr_range)
                 await EtherCat.connect(ec)
                 if gentle:
-                    tobj = await asyncio.wait_for(attach(pno, ec), 2)
+                    tobj = await asyncio.wait_for(attach(pno, ec), 8)
                 else:
                     tobj = [instrument(preinit(ec, st)) for st, _ in sterms]
                 await asyncio.wait_for(asyncio.gather(
@@ -447,7 +447,7 @@ def run(tape, scenario):
     # the station address an earlier session left, or none); the first process initialises
     # them (new address) and brings them to PRE-OPERATIONAL, the others then find them so
     gentle = multi and tape.chance("c15/attach-gently", 30)
-    attached = [False]
+    attached = [0]
     if gentle:
         for k, (st, srv) in enumerate(sterms):
             st.al_state = 1
@@ -458,9 +458,11 @@ def run(tape, scenario):
     async def attach(pno, ec):
         from ebpfcat.ethercat import MachineState, Terminal
         tobj = []
-        if pno != first_proc:
-            while not attached[0]:
-                await asyncio.sleep(2e-3)
+        # one process at a time: the EEPROM interface of a terminal is one set of registers
+        # without any lock, two processes reading it at once get each other's bytes
+        order = sorted(set(user_proc))
+        while attached[0] < order.index(pno):
+            await asyncio.sleep(2e-3)
         for k, (st, srv) in enumerate(sterms):
             t = Terminal(ec)
             t.name = st.name
@@ -468,8 +470,8 @@ def run(tape, scenario):
             if pno == first_proc:
                 await t.to_operational(MachineState.PRE_OPERATIONAL)
             tobj.append(instrument(t))
+        attached[0] += 1
         if pno == first_proc:
-            attached[0] = True
             world.count("c15/attached-by-gentle-initialize")
         return tobj
 
